@@ -380,7 +380,7 @@ def oracle_table(case, real):
     dyn_ctor = dict(zip(st["params"], _lst(r["ctor"]))) if dyn and _lst(r.get("ctor", "")) != ["skip"] else {}
     any_param_fail = False
     o = _PROBE_CACHE.get(key) or {}
-    unconstructible = dyn and bool(st["params"]) and all(dyn_ctor.get(p) == "R" for p in st["params"]) and \
+    unconstructible = dyn and bool(st["params"]) and all("R" in dyn_ctor.get(p, "") for p in st["params"]) and \
         "construction failed" in (o.get("fitdiag") or "")
     if unconstructible:
         any_param_fail = True
@@ -396,10 +396,16 @@ def oracle_table(case, real):
             any_param_fail = True
             kinds = {"C": "get_params returns a different object than was passed",
                      "D": "the default value comes back changed",
+                     "N": "an equal-valued form of a valid value (numpy scalar / tuple-list / 0-d array) is not stored as passed",
+                     "Q": "the constructor rejects an equal-valued form of a valid value",
+                     "L": "set_params accepts an equal-valued form but the estimator can then not be cloned",
                      "M": "the argument is not stored under its own name (get_params raises AttributeError)",
                      "R": "the constructor raises for some values (it inspects / transforms the argument)"}
             what = {"skip": "not observable here", "S": "stored for the probed values"}.get(
                 d_tok, "; ".join(kinds[k] for k in d_tok if k in kinds))
+            note = ((_PROBE_CACHE.get(key) or {}).get("ctor_notes") or {}).get(p)
+            if note:
+                what += " [" + note + "]"
             fails.append(("%s:ctor:%s:%s-%s" % (cname, p, s_tok, d_tok),
                           "constructor parameter %s.%s: table says %s, observed %s (%s)" % (
                               cname, p, {"S": "stored", "M": "never stored", "U": "not provably stored"}[s_tok], d_tok, what)))
